@@ -363,6 +363,7 @@ enum { PV_WRAP_MALLOC, PV_WRAP_FREE, PV_WRAP_CALLOC, PV_WRAP_REALLOC, PV_WRAP_TI
        PV_WRAP_GETENTROPY, PV_WRAP_RAND, PV_WRAP_RANDOM, PV_WRAP_OPEN, PV_WRAP_FOPEN, PV_WRAP_CLOCK,
        PV_WRAP_MKTIME, PV_WRAP_TIMEGM, PV_WRAP_GMTIME, PV_WRAP_GMTIME_R, PV_WRAP_LOCALTIME, PV_WRAP_LOCALTIME_R, PV_WRAP_N };
 extern uint64_t pv_wrap_count[PV_WRAP_N];
+extern long pv_wrap_malloc_fail_countdown; extern uint64_t pv_wrap_malloc_refused;      /* libc path: refuse the k-th allocation made inside a library call */
 extern int pv_wrap_time_scripted;
 #include <time.h>
 extern time_t pv_wrap_time_value;
